@@ -1,28 +1,1 @@
-# results_map retention/release in both runners (labtech/runners/serial.py, process.py)
-for key, cls in [('labtech.runners.serial:SerialRunner', 'SerialRunner'), ('labtech.runners.process:ProcessRunner', 'ProcessRunner')]:
-    R.contract(f'{key}.remove_results',
-        self_type=f'Obj[{cls}]', params={'tasks': 'Set[Task]'},
-        ensures=[
-            C("forall('Task', lambda k: implies(k not in tasks, (k in self.results_map) == (k in old(self.results_map))))",
-              'retention: results of other tasks stay', serves=('C01', 'C02', 'C17')),
-            C("forall('Task', lambda k: implies(k in self.results_map, self.results_map[k] == old(self.results_map)[k]))",
-              'retained values unchanged', serves=('C01', 'C02', 'C17')),
-            C("forall('Task', lambda k: implies(k in tasks, k not in self.results_map))",
-              'release: every named task is removed', serves=('C17',)),
-        ],
-        frame=['self.results_map'],
-        candidates=[
-            "forall('Task', lambda k: (k in self.results_map) == ((k in old(self.results_map)) and (k not in __done__)))",
-            "forall('Task', lambda k: implies(k in self.results_map, self.results_map[k] == old(self.results_map)[k]))",
-        ])
-    R.contract(f'{key}.get_result',
-        self_type=f'Obj[{cls}]', params={'task': 'Task'}, returns='Res',
-        requires=[],
-        ensures=['result == self.results_map[task]'],
-        raises={'KeyError': ['task not in self.results_map']},
-        pure=False)
-
-R.cls('labtech.runners.serial:SerialRunner',
-    fields={'results_map': 'Map[Task,Res]', 'task_submissions': 'List[Sub]'})
-R.cls('labtech.runners.process:ProcessRunner',
-    fields={'results_map': 'Map[Task,Res]', 'future_to_task': 'Map[Fut,Task]'})
+# (moved) results_map retention/release contracts now live in c40_runner.py as implementations of the abstract Runner contract
